@@ -133,6 +133,8 @@ def sim_uuid4():
 
 REAL_OPEN = io.open
 REAL_MKDIR = os.mkdir
+REAL_REPLACE = os.replace
+REAL_RENAME = os.rename
 
 
 class Fault:
@@ -274,6 +276,31 @@ def sim_mkdir(path, mode=0o777, *args, **kwargs):
     return REAL_MKDIR(path, mode, *args, **kwargs)
 
 
+def _sim_move(real):
+    def move(src, dst, *args, **kwargs):
+        fault = STATE.fault
+        if fault is not None and not fault.fired and (
+            fault.covers(src) or fault.covers(dst)
+        ):
+            if fault.kind == "rename_eio":
+                fault.fired = True
+                raise OSError(errno.EIO, "Input/output error (injected)")
+            if fault.kind == "crash_before_rename":
+                fault.fired = True
+                _crash()
+            if fault.kind == "crash_after_rename":
+                real(src, dst, *args, **kwargs)
+                fault.fired = True
+                _crash()
+        return real(src, dst, *args, **kwargs)
+
+    return move
+
+
+sim_replace = _sim_move(REAL_REPLACE)
+sim_rename = _sim_move(REAL_RENAME)
+
+
 # --------------------------------------------------------------------- audio
 
 
@@ -331,6 +358,11 @@ def install(aoef: bool = True, audio: bool = False) -> dict:
     io.open = sim_open
     builtins.open = sim_open
     os.mkdir = sim_mkdir
+    # no rename is issued by today's save; a write-to-temp-then-rename
+    # rewrite of it would run through these (pathlib's replace / rename
+    # reach them by attribute lookup)
+    os.replace = sim_replace
+    os.rename = sim_rename
     # any timer or expiry a change to soundevent introduces reads these
     import time as _time  # noqa: PLC0415
 
